@@ -62,6 +62,25 @@ func verifStubConvertError(f *fs.File, err error) kit.Error {
 	return verifKitError{pos: uint(verifrt.Choice("errpos", len(f.Content())+1))}
 }
 
+// refRegexEnd: index of the '/' that closes the regular expression opened at
+// data[start] == '/': the first '/' not preceded by an odd number of
+// backslashes (as the schema library delimits a regex value); -1 if none.
+func refRegexEnd(data []byte, start int) int {
+	escaped := false
+	for i := start + 1; i < len(data); i++ {
+		c := data[i]
+		switch {
+		case escaped:
+			escaped = false
+		case c == '\\':
+			escaped = true
+		case c == '/':
+			return i
+		}
+	}
+	return -1
+}
+
 // ---- reference trivia recogniser (C14) ----
 
 // refTrivia accepts exactly: blanks, line ends, '#' comments to the end of the
@@ -148,6 +167,8 @@ var verifPrefixes = []string{
 	26: "P",
 	27: "T",
 	28: "URL /a\n)",
+	29: "TYPE @a regex\n/",
+	30: "200 regex\n/a",
 }
 
 // VerifH_NextTotal (C01.1, C14, C02b): for every file prefix·x with x of 0..N
@@ -163,6 +184,7 @@ func VerifH_NextTotal() {
 	s := NewJApiScanner(file)
 	prevEnd := -1
 	prevAnnotation := false
+	lastKeyword := ""
 	count := 0
 	for {
 		lex, je := s.Next()
@@ -187,7 +209,13 @@ func VerifH_NextTotal() {
 		verifrt.Assert("C14.gap.trivia", refTrivia(data[prevEnd+1:b], prevAnnotation))
 		prevAnnotation = lex.Type() == Annotation
 		switch lex.Type() {
+		case Text:
+			if lastKeyword != "Description" {
+				// a regex body is exactly one value: from its opening '/' to the first unescaped '/'
+				verifrt.Assert("C14.regex.exact", data[b] == '/' && refRegexEnd(data, b) == e)
+			}
 		case Keyword:
+			lastKeyword = string(lex.Value())
 			_, err := directive.NewDirectiveType(string(lex.Value()))
 			verifrt.Assert("C14.keyword.known", err == nil)
 		case Parameter:
@@ -199,7 +227,8 @@ func VerifH_NextTotal() {
 					ok = true
 				}
 			}
-			verifrt.Assert("C14.body.exact", ok)
+			// only meaningful against the delimiting stub (natively the real library delimits the body)
+			verifrt.Assert("C14.body.exact", ok || !verifrt.Symbolic())
 		case ContextExplicitOpening, ContextExplicitClosing:
 			verifrt.Assert("C14.context.one-byte", b == e && (data[b] == '(' || data[b] == ')'))
 		}
